@@ -4,7 +4,7 @@ c11_tie = importlib.util.module_from_spec(_spec); _spec.loader.exec_module(c11_t
 T = "GeomV.C12."
 CFG = {
     "id": "C12",
-    "lean_modules": ["GeomV.C12.Proofs", "GeomV.C12.ProofsExt", "GeomV.C12.Negations"] + c11_tie.C12_TIES,
+    "lean_modules": ["GeomV.C12.Proofs", "GeomV.C12.ProofsExt", "GeomV.C12.Negations", "GeomV.C12.ProofsFloat"] + c11_tie.C12_TIES,
     "lean_dirs": ["C11", "C12"],
     "exe": "geomv_c12",
     "go_cmd": "c12",
@@ -16,6 +16,11 @@ CFG = {
         "C12_knn_int", "C12_sort_contract", "C12_prune_lit", "C12_nn_sorter", "C12_knn_sorter",
         # negations with concrete witnesses (Negations.lean): the code before ef18d0f; necessity of the min <= max hypothesis
         "C12_old_prune_unsound", "C12_valid_needed",
+        # float level (ProofsFloat.lean): for EVERY monotone rounding the repaired minMaxDist (ef912a0) keeps the MINMAXDIST
+        # guarantee and MINDIST <= MINMAXDIST on the rounded values; pruneEntries never empties the branch list and never
+        # loses an object of minimal rounded distance; the formula before the fix does not (witness under a 1/4-grid rounding)
+        "fMinDist_mono", "fMinMaxDist_spec", "fMinDist_le_fMinMaxDist", "C12_prune_float", "C12_prune_float_keeps_nearest",
+        "fMinDist_id", "fMinMaxDist_id", "C12_specTol_zero", "C12_old_minMaxDist_float_unsound",
         # T1: minDist / minMaxDist regenerated from index/rtree/geom.go of the tree under test = the model's
         "C12_tie_minDist", "C12_tie_minMaxDist", "C12_minDist_spec_src", "C12_minMaxDist_spec_src"]],
     "trusted_base": [
@@ -28,9 +33,11 @@ CFG = {
         "pruneEntries, minDist, minMaxDist) on the C11 tree model; tied to /repo/index/rtree by the correspondence run: the final tree "
         "of every history is compared exactly with the C11 model's tree (verif hook dump) and every answer with the model's answer "
         "(object identity when MaxChildren <= 11, where sort.Sort is a stable insertion sort; distances otherwise)",
-        "float64 arithmetic of minDist/minMaxDist is exact on the generated inputs (dyadic coordinates; every square, sum and difference "
-        "representable: below 2^53 times the square of the unit), so the comparisons of the float squared distances are the model's Rat "
-        "comparisons; since fix 2ded5fb the code compares the squared distances themselves (no math.Sqrt left in the search)",
+        "float64 arithmetic of minDist/minMaxDist is exact on the generated inputs of the exact families (dyadic coordinates; every square, "
+        "sum and difference representable: below 2^53 times the square of the unit), so the comparisons of the float squared distances are "
+        "the model's Rat comparisons; since fix 2ded5fb the code compares the squared distances themselves (no math.Sqrt left in the search). "
+        "On inputs where the arithmetic rounds, the prune is covered by C12_prune_float for any monotone rounding without overflow (float64 "
+        "round-to-nearest is one: trusted, not proved in Lean); the nn-round*/specOnly families are judged by the Spec up to 2^-40 relative",
         "sort.Sort acts on the entrySlice only through Len/Less/Swap with indices below Len (sort.Interface contract); then "
         "C12_sort_contract gives the permutation/pairing that the theorems need",
         "the C11 trusted base (tree model, hook, harness)",
@@ -43,6 +50,8 @@ CFG = {
     "rule": "C11-style histories (grow / region delete / capacity-boundary churn; (min,max) in {(2,4),(2,5),(3,6),(3,7),(4,8),(25,50)}; "
             "pointer, geom.Point and *geom.Bounds objects; coincident and degenerate boxes; duplicates inserted and deleted once; "
             "dyadic coordinate units 1, 1/2, 1/8, 1/64, 1/1024, 16 and a jittered lattice in the unit square, so that distances < 1 occur; "
+            "non-dyadic clouds on the k/10, k/7, k/3 grids with shared coordinates (zero-width / zero-height node boxes, query outside the slab) and "
+            "clouds with one axis at 2^52+{0..3} (midpoint of a node box not a float64) — Spec only, tolerance 2^-40 (class specOnly); "
             "far clusters: squared distances in [2^51,2^53) that differ by 1..4, closer than the float64 grid of their square roots, at scales 2^-40..2^60) followed by 12-14 queries each: points at box "
             "centres (half-integers), corners, on edges, just outside, far outside, grid points prone to ties, random; k in "
             "{NearestNeighbor, 1, 2, 3, size-1, size, size+3, random in 1..size+3; k = 0 and negative k as correspondence only}. One case = one history with all its queries; class = shape-kind-params-height",
